@@ -20,7 +20,7 @@ def M(level, claim, note, explanation, trusted=(), assumptions=(), externals=())
 
 META = {
     "C01": M("other",
-             "Proved for all inputs (132 obligations): every setter route that ends in Config._set_value / __setattr__ / _set_default_value / load_tree stores exactly the value the "
+             "Proved for all inputs (136 obligations): every setter route that ends in Config._set_value / __setattr__ / _set_default_value / load_tree stores exactly the value the "
              "field's validate returned, which satisfies accepts(field, .), and changes no other key or object (frame); the per-class meaning of accepts for StringField (all "
              "options), NumberField (IntField/FloatField/PortField: type, min, max with exact int/float comparison), BoolField, BytesField, ChallengeField; typed lists: every item "
              "stored by append / insert / index assignment / extend / construction satisfies the item field, typed dicts: item assignment and setdefault. NOT proved: the net / file "
@@ -36,7 +36,7 @@ META = {
              "to_tree verified with inductive loop invariants over the merged field table",
              assumptions=[FIELDS1, ACYCLIC]),
     "C03": M("other",
-             "Proved (239 obligations): Config._keyfile uses the key file named on the configuration itself, else the one named on its parent (recursively through the same contract), "
+             "Proved (243 obligations): Config._keyfile uses the key file named on the configuration itself, else the one named on its parent (recursively through the same contract), "
              "else a default KeyFile kept in a slot of its own - looking a key file up never names one on any configuration (frame on the naming slot); a rebuilt sub-configuration "
              "takes over the key files named in the one it replaces; sub-configurations created by default, by assignment of a map and by Schema.__call__ carry parent and key; "
              "SecureField.to_basic writes null for an empty secret and otherwise a new map with exactly `method` (aes|xor) and a text `ciphertext`, to_python passes null/plain text "
@@ -55,7 +55,7 @@ META = {
              "json/yaml/bson/pickle/ElementTree/minidom laws are third-party: assumed + sampled; recursive tree equality is outside the encoding",
              "contracts on the real format classes discharged by z3/cvc5 + bounded run-time contract checking of loads(dumps(t)) == t"),
     "C05": M("other",
-             "Proved (71 obligations): Field.validate (required / None / custom validator chain) against its virtual contract; exactness of StringField (normal form = strip then "
+             "Proved (75 obligations): Field.validate (required / None / custom validator chain) against its virtual contract; exactness of StringField (normal form = strip then "
              "case, rejected only if a constraint fails), NumberField (a number of the field's type within the bounds is kept as it is and never rejected, text is parsed, bools and "
              "non-numbers are refused, result within bounds), BoolField (token sets), BytesField (validation + base64/hex codec inverse), ChallengeField. The remaining classes (net, "
              "file, url, list, dict), idempotence and codec inverses are decided by the bounded driver: every built-in field class x option grid (all pairs, boundaries, 0/None) x "
